@@ -29,10 +29,10 @@ FIELD_PROPS = {
     "codec": {},
     "tomb": {},
     "infl": {
-        "started": ["C06", "C11"],
-        "dstarted": ["C06"],
-        "callers": ["C06", "C11"],
-        "cache": ["C06", "C11"],
+        "started": ["C06", "C11", "C17"],
+        "dstarted": ["C06", "C17"],
+        "callers": ["C06", "C11", "C17"],
+        "cache": ["C06", "C11", "C17"],
     },
     "lay": {},
     "crash": {},
@@ -166,11 +166,13 @@ PROPS = {
                 {"name": "mem-colliding", "args": ["mode=oracle", "cases=800", "maxops=40", "collide=1"]},
                 {"name": "memc-colliding", "domain": "memc", "args": ["cases=200", "threads=3", "ops=6", "collide=1"]},
                 {"name": "hyb-colliding", "domain": "hyb", "args": ["cases=250", "maxops=25", "collide=1", "reopen=1"]},
+                {"name": "infl-colliding", "domain": "infl", "args": ["cases=1200", "maxev=16", "collide=1"]},
             ],
             "thorough": [
                 {"name": "mem-colliding", "args": ["mode=oracle", "cases=20000", "maxops=80", "collide=1"]},
                 {"name": "memc-colliding", "domain": "memc", "args": ["cases=5000", "threads=4", "ops=7", "collide=1"]},
                 {"name": "hyb-colliding", "domain": "hyb", "args": ["cases=6000", "maxops=40", "collide=1", "reopen=1"]},
+                {"name": "infl-colliding", "domain": "infl", "args": ["cases=40000", "maxev=24", "collide=1"]},
             ],
         },
         "nontrivial": r"ret=(h:|v:)",
@@ -393,7 +395,7 @@ CLAIMS.update({
                     "the hybrid model's disk tier (indexed by hash alone) answers a lookup with the requested key's own value or a "
                     "miss, also after recovery. Correspondence with user-supplied colliding hashers (full 64-bit and same-shard "
                     "collisions): memory cache sequential and concurrent, real HybridCache with write-queue windows and restarts",
-            "note": MEM_NOTE + "; the in-flight (get_or_fetch) table under collisions is exercised by the hybrid campaign only, not proved",
+            "note": MEM_NOTE + "; the in-flight (get_or_fetch) table under collisions is exercised by the hybrid campaign and by the in-flight campaign with a constant hasher (the in-flight model is per key), not proved",
             "technique": MEM_TECH},
     "C18": {"text": "Lean 4 theorems: held handles denote unchanged records; under LRU a looked-up record is pinned, a pinned record "
                     "is never a victim and stays pinned until an operation addresses it; in every reachable state every pinned "
